@@ -551,9 +551,16 @@ func runC19(st *ev.Stats, h History) string {
 	if msg := cmp("at import", false); msg != "" {
 		return msg
 	}
-	for _, x := range []*chain.Node{n, m} {
-		x.BeginBlock(chain.BlockIn{})
-		x.EndBlockCommit()
+	for xi, x := range []*chain.Node{n, m} {
+		// (the first block of the re-imported chain carries no commit of a previous block; the exporting chain gets the
+		// same input, otherwise a pending liveness slash fires one block earlier there)
+		bb := x.BeginBlock(chain.BlockIn{NoVotes: true})
+		eb, _ := x.EndBlockCommit()
+		if os.Getenv("VERIF_DEBUG") != "" {
+			for _, e := range append(append([]abci.Event{}, bb.Events...), eb.Events...) {
+				fmt.Printf("DEBUG C19 empty block node %d event %s %v\n", xi, e.Type, e.Attributes)
+			}
+		}
 	}
 	if msg := cmp("after one empty block", true); msg != "" {
 		return msg
